@@ -39,6 +39,11 @@ def configs(tier, seed):
                 for sparse in ((False, True) if size <= (4 if tier == "quick" else 6) else (False,)):
                     for fo in ((False, True) if nd >= 2 else (False,)):
                         out.append(dict(h="to_df", op=name, key=f"to_df/{name}/index={int(index)}/d2c={d2c}/sparse={int(sparse)}" + ("/F" if fo else ""), ds=name, index=index, d2c=d2c, sparse=sparse, fortran=fo))
+        if 2 <= size <= 6:
+            for i in range(size):
+                for j in range(size):
+                    if i != j:
+                        out.append(dict(h="mislabel", op=name, key=f"mislabel/{name}/row{i}_as_row{j}", ds=name, i=i, j=j))
         if size <= 4:
             for perm in itertools.permutations(range(size)):
                 if perm == tuple(range(size)):
@@ -117,6 +122,20 @@ def run(cfg, w):
                 if lab in seen:
                     w.ob(f"entry_under_true_labels{list(idx)}", w.same(seen[lab], X[idx]))
         w.ob("no_foreign_rows", all(all(l in s[2] for l, s in zip(lab, spec)) for lab in seen))
+        w.ob_arr_eq("array_unchanged", x.values, X)
+        return
+    if h == "mislabel":
+        # one row carries another row's labels: no unique row for that entry, none at all for the other one
+        df = x.to_df(index=False)
+        names = [sp[1] for sp in spec]
+        for n in names:
+            df.loc[cfg["i"], n] = df.loc[cfg["j"], n]
+        for kw in (dict(), dict(allow_missing_values=True), dict(allow_extra_values=True)):
+            try:
+                FlodymArray.from_df(dims=build_dims(name), df=df.copy(), **kw)
+                w.ob(f"doubled_labels_refused{sorted(kw)}", False, info="returned although two rows carry the same labels")
+            except Exception:
+                w.ob(f"doubled_labels_refused{sorted(kw)}", True)
         w.ob_arr_eq("array_unchanged", x.values, X)
         return
     if h == "rowperm":
